@@ -14,6 +14,7 @@ import (
 	"strings"
 	"time"
 
+	"github.com/go-shiori/dom"
 	distiller "github.com/markusmobius/go-domdistiller"
 	"golang.org/x/net/html"
 )
@@ -231,7 +232,12 @@ func makeRoot(kind, page string, r *rand.Rand, g *docGen) (*html.Node, string) {
 	case "doctype":
 		return &html.Node{Type: html.DoctypeNode, Data: "html"}, "doctype"
 	}
-	doc, err := html.Parse(strings.NewReader(page))
+	// the tree entry point gets the tree that the byte entry points build themselves (dom.Parse:
+	// charset detection, normalisation), so that entry-point agreement is about the distiller only
+	doc, err := dom.Parse(strings.NewReader(page))
+	if err != nil {
+		doc, err = html.Parse(strings.NewReader(page))
+	}
 	if err != nil {
 		return &html.Node{Type: html.DocumentNode}, "unparsed"
 	}
@@ -403,17 +409,24 @@ func runCalls(c Case, e *env) []Event {
 			continue
 		}
 		obs := map[string]interface{}{"err": out.err != nil || out.res == nil, "nodeok": false, "ms": out.dur.Milliseconds(),
-			"core": "", "pag": "", "pagempty": true, "urlfield": "none", "wc": -1, "view": "",
+			"core": "", "urldig": "", "pag": "", "pagempty": true, "urlfield": "none", "wc": -1, "view": "", "txtwc": -1, "ntitle": 0, "onlytxt": false,
 			"treesame": snapshotTree(root) == treeBefore, "optssame": snapshotOpts(opts) == optsBefore}
 		if out.err == nil && out.res != nil {
 			res := out.res
 			obs["nodeok"] = res.Node != nil && res.Node.Type == html.ElementNode && res.Node.Data == "div"
 			d := digestResult(res)
 			obs["core"] = d["core"]
+			obs["urldig"] = d["url"]
 			obs["pag"] = d["pagination"]
 			obs["pagempty"] = res.PaginationInfo.NextPage == "" && res.PaginationInfo.PrevPage == ""
 			obs["wc"] = res.WordCount
 			obs["view"] = dig(res.Text + "\x00" + renderNode(res.Node))
+			obs["txtwc"] = len(strings.Fields(res.Text))
+			obs["ntitle"] = len(res.Title)
+			obs["onlytxt"] = onlyText(res.Node)
+			if obs["onlytxt"].(bool) && res.Title == "" && res.Text != "" {
+				count("wordcount_clause_applies")
+			}
 			switch {
 			case res.URL == "":
 				obs["urlfield"] = "empty"
@@ -506,4 +519,26 @@ func mutateBytes(page, mode string, param int, r *rand.Rand) string {
 		return []string{"", " ", "\n", "<", "<!", "<!--", "<!DOCTYPE", "\x00", "\xff\xfe", "plain text only no tags at all"}[param%10]
 	}
 	return page
+}
+
+// onlyText: the distilled HTML holds nothing but text blocks (no table, figure, image, video, frame, placeholder).
+func onlyText(n *html.Node) bool {
+	if n == nil {
+		return true
+	}
+	if n.Type == html.ElementNode {
+		switch n.Data {
+		case "table", "figure", "img", "picture", "video", "iframe":
+			return false
+		}
+		if isPlaceholder(n) {
+			return false
+		}
+	}
+	for c := n.FirstChild; c != nil; c = c.NextSibling {
+		if !onlyText(c) {
+			return false
+		}
+	}
+	return true
 }
